@@ -6,6 +6,55 @@ from .rt import is_call, calls, idx
 LEVEL = "other"
 
 
+POSITION_WRITERS = {
+    # who may move the input position, and with what (everything else reads it): the error offset IS this position
+    "Parser>::parse": "start position of the parse",
+    "Parser>::parse_with_context": "LR shift: end of the shifted token",
+    "StringLexer::skip": "skipped whitespace",
+}
+
+
+def _plain(path):
+    """`<a::X<'i, T> as b::Tr<'i, U>>::m` -> `<a::X as b::Tr>::m` (generic arguments dropped, the qualified-path brackets kept)"""
+    out, depth, prev = [], 0, ""
+    for ch in mir.strip_generics(path):
+        if ch == "<" and (depth or (prev.isalnum() or prev == "_")):
+            depth += 1
+        elif ch == ">" and depth:
+            depth -= 1
+        elif not depth:
+            out.append(ch)
+        prev = ch
+    return "".join(out)
+
+
+def r6_position_writers(F, res):
+    rid = res.rule("C12-R6", "only parse() (start position), the LR shift and the lexer's whitespace skip move the input position; "
+                   "no code on the way to an error report rewinds or advances it", floor=4)
+    seen = 0
+    for pth, f in sorted(F.fns.items()):
+        if f.crate != "rustemo" or not f.has_body() or f.d.get("inlined_into") or "::tests::" in pth:
+            continue
+        for b, tm in f.calls():
+            if not mir.call_matches(mir.callee(tm), "Context::set_position"):
+                continue
+            if "{closure#" in (f.blocks[b].get("inl_from") or ""):
+                continue
+            root = _plain(F.owner_root(pth))
+            seen += 1
+            key = [k for k in POSITION_WRITERS if root.endswith(k)]
+            where = "%s:%s" % (f.file, tm.get("line"))
+            if key:
+                res.ok(rid, "writer/%s" % root.rsplit("::", 2)[-2:][0].split(" ")[0] + "::" + root.rsplit("::", 1)[-1], where, POSITION_WRITERS[key[0]])
+            else:
+                res.violation(rid, "writer/%s" % root.rsplit("::", 1)[-1], "%s moves the input position (set_position): the position is "
+                              "owned by parse(), the LR shift and the whitespace skip; an extra writer changes where errors (and "
+                              "spans) are reported" % root, where)
+    # the LR token fetch in particular reads the position only
+    if seen < 4:
+        res.anchor_lost(rid, "%d position writers found, 4 on the audited tree" % seen)
+
+
 def run(ctx, res):
     F = ctx.facts("core")
     rid1 = res.rule("C12-R1", "LR error path: Err(error_expected(input, file, ctx, expected kinds of the current state)) only on "
@@ -186,6 +235,7 @@ def run(ctx, res):
     res.ok(rid5, "propagate", f2.loc(), "%d next_token results, all followed by `?`" % nt)
     from . import known
     known.crosslist(res, "C12", "C13-R8/template-anchor", "C12-X1")
+    r6_position_writers(F, res)
     res.explanation = (
         "Decides where the reported offset and expected set come from: the complete next_token decision table (error only "
         "when nothing matched, no layout progress and no partial-parse STOP), the error value (zero-width span at the "
